@@ -417,7 +417,11 @@ def parse_youtube_url(url, fix_common_mistakes=True):
         if path.count("/") == 1:
             name = path.lstrip("/")
 
-            if name in YOUTUBE_CHANNEL_NAME_BLACKLIST or name in YOUTUBE_RESERVED_PATHS:
+            # NOTE: youtube routes are not case-sensitive
+            if (
+                name.lower() in YOUTUBE_CHANNEL_NAME_BLACKLIST
+                or name.lower() in YOUTUBE_RESERVED_PATHS
+            ):
                 return
 
             name = name.lstrip("@")
@@ -462,8 +466,8 @@ def normalize_youtube_url(url):
 
         # NOTE: the short form is ambiguous for names colliding with reserved paths
         if (
-            parsed.name in YOUTUBE_CHANNEL_NAME_BLACKLIST
-            or parsed.name in YOUTUBE_RESERVED_PATHS
+            parsed.name.lower() in YOUTUBE_CHANNEL_NAME_BLACKLIST
+            or parsed.name.lower() in YOUTUBE_RESERVED_PATHS
         ):
             return "https://www.youtube.com/c/%s" % parsed.name
 
